@@ -3,7 +3,7 @@
    Statements only; proofs in Proofs/ActionLog_proofs.v. *)
 From Coq Require Import ZArith List Bool.
 Import ListNotations.
-Require Import Grist.Model.ActionLog Grist.Proofs.ActionLog_proofs Grist.Props.C01.
+Require Import Grist.Model.ActionLog Grist.Proofs.ActionLog_proofs Grist.Proofs.ActionLog_calc Grist.Props.C01.
 Open Scope Z_scope.
 
 (* Full statement, for a class `wf_events` of event lists: after the bundle has been undone, replaying its
@@ -22,6 +22,13 @@ Proof.
   exact (doc_bundle_redo O L s acts s' out s0 Hwf Hl H Hu).
 Qed.
 
+(* Stages 1+2: doc actions, then calc deltas (formula recalculation), then the flush (C01.docs_then_calcs, a
+   computable check evaluated on every recorded trace).  The stored list is the doc actions followed by one update
+   per recalculated column carrying the `after` values of the rows whose encoding changed; replayed on the undone
+   document it gives the document the bundle produced. *)
+Theorem C03_redo_docs_calcs_partial : forall O, ValLaws O -> C03_statement O (docs_then_calcs O).
+Proof. intros O L s es s' out s0 _ Hok H Hu. exact (bundle_ok2_redo O L s es s' out s0 Hok H Hu). Qed.
+
 (* The stored actions of a sequence of doc actions replay to an equivalent document from any equivalent start
    (the lemma behind redo; also what a collaborator applying the same actions relies on). *)
 Theorem C03_replay_congruence : forall O, ValLaws O -> forall acts s1 s2 s1',
@@ -36,4 +43,19 @@ Example C03_doc_nonvacuous :
 Proof.
   eexists. eexists. eexists. eexists. split; [vm_compute; reflexivity|].
   split; [vm_compute; reflexivity|]. split; [vm_compute; reflexivity|]. split; reflexivity.
+Qed.
+
+Example C03_docs_calcs_nonvacuous :
+  bundle_ok2 ZOps ex_state ex2_events = true /\
+  exists s' out s0 s1,
+    run ZOps ex_state ex2_events = Ok (s', out) /\
+    o_stored ZOps out = [AddColumn ZOps nT nF ciFormula; BulkAddRecord ZOps nT [3] [(nA, [30])];
+                         BulkUpdateRecord ZOps nT [1] [(nA, [11])];
+                         BulkUpdateRecord ZOps nT [1; 2; 3] [(nF, [12; 20; 30])]] /\
+    replay_doc ZOps (rev (o_undo ZOps out)) s' = Ok s0 /\
+    replay_doc ZOps (o_stored ZOps out) s0 = Ok s1 /\ view ZOps s1 = view ZOps s'.
+Proof.
+  split; [vm_compute; reflexivity|]. eexists. eexists. eexists. eexists.
+  split; [vm_compute; reflexivity|]. split; [reflexivity|]. split; [vm_compute; reflexivity|].
+  split; vm_compute; reflexivity.
 Qed.
